@@ -89,7 +89,7 @@ def _export(cfg_name, devs, workdir):
     if not res.ok:
         raise MachineryError(f"TLC reports {res.violated} on export {cfg_name}\n{res.raw_tail[-1500:]}")
     g = tlc.build_graph(res.lines)
-    init = [k for k, v in g.states.items() if not v["s"]["gch"] and not v["s"]["labels"] and all(h["st"] == "none" for h in v["s"]["hs"])]
+    init = [k for k, v in g.states.items() if not v["s"]["gch"] and not v["s"]["labels"] and all(h["st"] == "none" for h in v["s"]["hs"]) and v["s"].get("sess", "mixed") == "mixed"]
     if len(init) != 1:
         raise MachineryError(f"{cfg_name}: {len(init)} initial states")
     return res, g, init
